@@ -18,7 +18,6 @@ package stream
 
 import (
 	"sync/atomic"
-	"time"
 )
 
 // safeGetDataChan safely gets dataChan reference
@@ -121,24 +120,18 @@ func (s *Stream) expandDataChannel() {
 	s.dataChanMux.Lock()
 	oldChan := s.dataChan
 
-	// Quickly migrate data from old channel to new channel
-	migrationTimeout := time.NewTimer(5 * time.Second) // 5 second migration timeout
-	defer migrationTimeout.Stop()
-
+	// Migrate data from old channel to new channel. Senders hold the read lock,
+	// so while the write lock is held nothing can be added to either channel, and
+	// newCap > oldCap >= len(oldChan): the send into newChan can never block. No
+	// wall-clock timeout here — it could only fire when the process stalls, and
+	// would then silently lose the row in hand and strand the rest on the
+	// orphaned channel without counting them as dropped.
 	migratedCount := 0
 	for {
 		select {
 		case data := <-oldChan:
-			select {
-			case newChan <- data:
-				migratedCount++
-			case <-migrationTimeout.C:
-				s.log.Warn("Data migration timeout, some data may be lost during expansion")
-				goto migration_done
-			}
-		case <-migrationTimeout.C:
-			s.log.Warn("Data migration timeout during channel drain")
-			goto migration_done
+			newChan <- data
+			migratedCount++
 		default:
 			// Old channel is empty, migration completed
 			goto migration_done
